@@ -44,6 +44,7 @@ func Protocol(t *testing.T, bind *Binding, job *Job, p *sdl.Program, acc *statAc
 	w := model.NewWorld(p, EffectiveCfg(p))
 	out := w.StartOutcome()
 	do := func(s SpecData) *model.Obs {
+		progress(job, "run %s", p.ID)
 		o := Run(t, bind, &RunSpec{SpecData: s, Prog: p, TmpDir: job.TmpDir})
 		recs = append(recs, RunRec{Spec: s, Obs: o})
 		acc.addRun(p, o, NonTrivial(job.Property, w, out, o))
